@@ -290,7 +290,19 @@ pub fn c07(ctx: &mut Ctx) {
     ctx.bound("buffer", "exactly the announced size, pre-filled with 0xA5");
     let spaces = all_target_spaces(ctx.tier, ctx.seed);
     run_targets(ctx, spaces, |t, _idx, _all, l| {
-        if !t.broken().is_empty() {
+        let broken = t.broken();
+        if !broken.is_empty() {
+            // A configuration the RFCs give no image: nothing to compare - but nothing may be written for it either.
+            // If the builder accepts it, whatever it writes is not an RFC image. (Oversize packets are left to
+            // C16, where they are recorded known findings.)
+            if broken.iter().all(|b| b.rule != "total-size-at-most-65536-words") {
+                let mut accepted = None;
+                let r = guard::catch(|| t.with_writer(&mut |w| accepted = Some(w.size().is_ok())));
+                if r.is_ok() && accepted == Some(true) {
+                    l.violation(format!("accepted-though-the-rfc-defines-no-image:{}:{}", broken[0].rule, t.builder()), || t.short(), || format!("violated: {:?}", broken.iter().map(|b| b.rule).collect::<Vec<_>>()));
+                    return;
+                }
+            }
             l.hit("unrepresentable (no image defined; C16's domain)");
             return;
         }
@@ -320,9 +332,15 @@ fn c07_case(t: &Target, w: &dyn AnyWriter, site: &str, l: &mut Local) {
     let mut buf = vec![0xA5u8; n];
     l.transitions += 1;
     let m = match guard::catch(|| w.write(&mut buf)) {
-        Ok(Ok(m)) if m == n => m,
-        _ => {
-            l.hit("write failed or size mismatch (C06's domain)");
+        // the image is what was written, whatever size was announced: a writer that announces more than it writes
+        // has put a wrong length field into its header
+        Ok(Ok(m)) => m.min(buf.len()),
+        Ok(Err(e)) => {
+            l.violation(format!("no-image-written:{}", site), || t.short(), || format!("calculate_size() = {}, write_into an exactly sized buffer = Err({:?})", n, e));
+            return;
+        }
+        Err(pi) => {
+            l.subject_panic(&format!("write:{}", site), &pi, || t.short());
             return;
         }
     };
